@@ -7,7 +7,7 @@ CONF_P = {"conf_pack_outcome", "conf_out"}
 
 PROFILES = {
  "C06": dict(universes=["U_C06"], invs=["Inv_Machine", "Inv_C04_Exact", "Inv_C12_Shape"],
-             owned=CONF_U | CONF_P | {"conf_read_set", "conf_reads"}, rand="data", c01=False, bonus=2,
+             owned=CONF_U | CONF_P, rand="data", c01=False, bonus=2,
              nrand=(600, 6000)),
  "C08": dict(universes=["U_C08"], invs=["Inv_Machine", "Inv_C04_Exact", "Inv_C12_Shape"],
              owned=CONF_U | CONF_P, rand="control", c01=False, bonus=1, nrand=(600, 6000)),
@@ -16,10 +16,11 @@ PROFILES = {
              rand="position", c01=True, bonus=1, nrand=(600, 6000)),
  "C12": dict(universes=["U_C12", "U_C10_Flat"], invs=["Inv_Machine", "Inv_C12_Shape"],
              owned={"conf_err", "conf_perr", "conf_err_depth", "C12_Shape", "C12.unpack_raises_only_PacketError",
-                    "C12.pack_raises_only_PacketError", "C12.str_total", "C12.phase"},
+                    "C12.pack_raises_only_PacketError", "C12.str_total", "C12.phase", "C12.silent",
+                    "C12.not_bytes", "C04_OverAccept"},
              rand="mixed", c01=False, bonus=1, nrand=(800, 8000)),
  "C04": dict(universes=["U_C06", "U_C07_24", "U_C12"], invs=["Inv_Machine", "Inv_C04_Exact"],
-             owned={"C04_Exact"}, rand="mixed", c01=False, bonus=1, nrand=(800, 8000)),
+             owned={"C04_Exact", "C04_OverAccept"}, rand="mixed", c01=False, bonus=1, nrand=(800, 8000)),
  "C01": dict(universes=["U_C01"], quick_universes=["U_C01_Q"], invs=["Inv_Machine", "Inv_C01_Bytes", "Inv_C01_Fill", "Inv_C01_Len",
                                         "Inv_C01_OverlapRaises", "Inv_C01_RaiseOnlyOnOverlap"],
              owned={"C01_Bytes", "C01_Fill", "C01_Len", "C01_OverlapRaises", "C01_RaiseOnlyOnOverlap"},
